@@ -326,6 +326,7 @@ class Translator:
         self.noraw = {}         # lean name -> bool
         self.table = []         # (display name, lean ref, rust type)
         self.unknowns = []
+        self.soft = []
         self.skipped = []
         self.rust_impls = []    # generated Rust text
         self.done_rust = set()
@@ -685,6 +686,7 @@ class Translator:
         variants = self.enum_variants_plain(item)
         vpos = {v[0]: i for i, v in enumerate(variants)}
         idx_of = {}
+        other = None
         for arm in split_top(arms_txt):
             arm = arm.strip()
             if not arm:
@@ -701,9 +703,20 @@ class Translator:
                 idx_of[vname] = int(pat)
             elif pat == "_" and rhs.startswith("Err("):
                 pass
+            elif re.fullmatch(r"[a-z]\w*", pat):
+                # catch-all: `x => Ok(Name::Other(x, d.decode_with(ctx)?))`, `Other` declared last with the number first
+                mm = re.match(r"Ok\(\s*" + item.name + r"::(\w+)\(\s*" + pat + r"\s*,", rhs)
+                if not mm or mm.group(1) != variants[-1][0] or other is not None:
+                    raise Unknown(f"{dmod}::{item.name}: catch-all decode arm `{pat}`")
+                other = mm.group(1)
+                otys = variants[-1][1]
+                if not otys or otys[0].strip() != "u" + bits:
+                    raise Unknown(f"{dmod}::{item.name}::{other}: first field is not the variant number")
+                if rhs.count("d.decode_with(ctx)?") != len(otys) - 1:
+                    raise Unknown(f"{dmod}::{item.name}::{other}: decoder reads a different number of fields than the variant has")
             else:
-                raise Unknown(f"{dmod}::{item.name}: catch-all decode arm `{pat}` (not modelled)")
-        if set(idx_of) != set(vpos):
+                raise Unknown(f"{dmod}::{item.name}: decode arm `{pat}`")
+        if set(idx_of) | ({other} if other else set()) != set(vpos):
             raise Unknown(f"{dmod}::{item.name}: variants without a decode arm")
         # encoder arms
         for vname, tys in variants:
@@ -711,23 +724,42 @@ class Translator:
             if not mm:
                 raise Unknown(f"{dmod}::{item.name}::{vname}: no encode arm")
             body = mm.group(1)
+            if vname == other:
+                m3 = re.match(r"\s*e\.array\((\d+)\)\?;\s*e\.u" + bits + r"\(\*\w+\)\?;(.*)$", body, re.S)
+                if not m3:
+                    raise Unknown(f"{dmod}::{item.name}::{vname}: encode arm is not `array(n), number, fields`")
+                nf = len(re.findall(r"e\.encode(?:_with)?\(", m3.group(2)))
+                if int(m3.group(1)) != len(tys):
+                    self.soft.append(f"{dmod}.{item.name}: {vname}: encoder writes array({m3.group(1)}) for a variant with {len(tys)} field(s)")
+                if nf != len(tys) - 1:
+                    self.soft.append(f"{dmod}.{item.name}: {vname}: encoder writes {nf} payload field(s), the variant has {len(tys) - 1}")
+                continue
             m2 = re.match(r"\s*e\.array\((\d+)\)\?;\s*e\.(?:u8|u16|encode_with)\((\d+)(?:,\s*ctx)?\)\?;(.*)$", body, re.S)
             if not m2:
                 raise Unknown(f"{dmod}::{item.name}::{vname}: encode arm is not `array(n), variant, fields`")
             n, idx, rest = int(m2.group(1)), int(m2.group(2)), m2.group(3)
             nf = len(re.findall(r"e\.encode(?:_with)?\(", rest))
+            # a disagreement between the two impls is recorded (the build breaks on `unknowns = []`), and the
+            # schema is still emitted from the decoder's reading, so that the correspondence run can show the
+            # concrete value on which encoder and decoder disagree
             if n != 1 + len(tys):
-                raise Unknown(f"{dmod}::{item.name}::{vname}: encoder writes array({n}) for a variant with {len(tys)} field(s)")
+                self.soft.append(f"{dmod}.{item.name}: {vname}: encoder writes array({n}) for a variant with {len(tys)} field(s)")
             if nf != len(tys):
-                raise Unknown(f"{dmod}::{item.name}::{vname}: encoder writes {nf} field(s), the variant has {len(tys)}")
+                self.soft.append(f"{dmod}.{item.name}: {vname}: encoder writes {nf} field(s), the variant has {len(tys)}")
             if idx != idx_of[vname]:
-                raise Unknown(f"{dmod}::{item.name}::{vname}: encoder writes variant {idx}, decoder expects {idx_of[vname]}")
-        vts, nrs = [], []
+                self.soft.append(f"{dmod}.{item.name}: {vname}: encoder writes variant {idx}, decoder expects {idx_of[vname]}")
+        vts, nrs, oterm = [], [], None
         for vname, tys in variants:
-            sts = [self.schema_of(dmod, parse_type(t), subst) for t in tys]
-            vts.append(f"({idx_of[vname]}, {lean_list([x[0] for x in sts])})")
+            if vname == other:
+                sts = [self.schema_of(dmod, parse_type(t), subst) for t in tys[1:]]
+                oterm = lean_list([x[0] for x in sts])
+            else:
+                sts = [self.schema_of(dmod, parse_type(t), subst) for t in tys]
+                vts.append(f"({idx_of[vname]}, {lean_list([x[0] for x in sts])})")
             nrs += [x[1] for x in sts]
-        self.rust_plain_enum(dmod, item, variants)
+        self.rust_plain_enum(dmod, item, variants, other_excl=sorted(idx_of.values()) if other else None)
+        if other:
+            return f".sumOther {bits} {lean_list(vts)} {oterm}", self.and_nr(nrs)
         return f".sumFixed {bits} {lean_list(vts)}", self.and_nr(nrs)
 
     def translate_bytype(self, dmod, item, subst):
@@ -834,8 +866,9 @@ class Translator:
         init = f"Self {{ {field[1]}: Arb::arb(g, d) }}" if named else "Self(Arb::arb(g, d))"
         self.rust_impls.append(f"impl{ig} Arb for {path}{ag} {{ fn arb(g: &mut Rng, d: u32) -> Self {{ {init} }} }}")
 
-    def rust_enum(self, dmod, item, variants):
-        """variants: [(name, named?, fields)] for derived enums"""
+    def rust_enum(self, dmod, item, variants, other_excl=None):
+        """variants: [(name, named?, fields)] for derived enums; `other_excl`: the last variant is a catch-all whose
+        first field (the variant number) must avoid these values"""
         if (dmod, item.name) in self.done_rust:
             return
         self.done_rust.add((dmod, item.name))
@@ -855,14 +888,18 @@ class Translator:
                 binds = ", ".join(f"f{f[1]}" for f in fields)
                 acc = "".join(f" f{f[1]}.show(o);" for f in fields)
                 arms.append(f"Self::{vname}({binds}) => {{ o.push(\"v{pos}\".into()); o.push(\"[\".into());{acc} o.push(\"]\".into()); }}")
-                gens.append(f"{pos} => Self::{vname}(" + ", ".join("Arb::arb(g, d + 1)" for _ in fields) + "),")
+                args = ["Arb::arb(g, d + 1)" for _ in fields]
+                if other_excl is not None and pos == len(variants) - 1:
+                    args[0] = "{ let mut x: u8 = Arb::arb(g, d + 1); while [" + ", ".join(f"{v}u8" for v in other_excl) + "].contains(&x) { x = x.wrapping_add(1); } x }"
+                gens.append(f"{pos} => Self::{vname}(" + ", ".join(args) + "),")
         self.rust_impls.append(f"impl{ig} Show for {path}{ag} {{ fn show(&self, o: &mut Vec<String>) {{ match self {{ {' '.join(arms)} }} }} }}")
         ig, ag = self.rust_generics(item, "Arb")
         gens[-1] = re.sub(r"^\d+ =>", "_ =>", gens[-1])
         self.rust_impls.append(f"impl{ig} Arb for {path}{ag} {{ fn arb(g: &mut Rng, d: u32) -> Self {{ match g.below({len(variants)}) {{ {' '.join(gens)} }} }} }}")
 
-    def rust_plain_enum(self, dmod, item, variants):
-        self.rust_enum(dmod, item, [(v[0], False if v[1] else None, [(i, str(i), t) for i, t in enumerate(v[1])]) for v in variants])
+    def rust_plain_enum(self, dmod, item, variants, other_excl=None):
+        self.rust_enum(dmod, item, [(v[0], False if v[1] else None, [(i, str(i), t) for i, t in enumerate(v[1])]) for v in variants],
+                       other_excl=other_excl)
 
     # -- driver
     def run(self, claimed):
@@ -887,6 +924,8 @@ class Translator:
                         continue
                 if any(a.startswith("deprecated") for a in item.attrs):
                     continue
+                if item.kind != "type" and not any(self.derives(item)) and name not in self.hand_impl[mod] and name not in self.bytype[mod]:
+                    continue        # not a codec type at all (e.g. babbage::VrfDerivation)
                 try:
                     ref, nr = self.instance(mod, item, [], [])
                     rust = self.rust_path(mod, name) + ("<" + ", ".join("'_" if g[0] == "life" else "1" for g in item.generics) + ">" if item.generics else "")
@@ -897,6 +936,7 @@ class Translator:
                 except Exception as e:  # malformed source: fail closed
                     self.progress = []
                     (self.unknowns if disp in claimed else self.skipped).append(f"{disp}: {type(e).__name__} {e}")
+        self.unknowns += self.soft
         have = {t[0] for t in self.table}
         for c in sorted(claimed):
             if c not in have and not any(u.startswith(c + ":") for u in self.unknowns):
@@ -941,6 +981,7 @@ class Translator:
             R.append(f"    \"{d}\" => $op!({rust}, $($arg),*),")
         R.append("    _ => None,")
         R.append("} } }")
+        R.append("pub(crate) use schema_dispatch;")
         R.append("pub const TYPE_NAMES: &[&str] = &[" + ", ".join(f"\"{d}\"" for d, _, _ in self.table) + "];")
         return "\n".join(R) + "\n"
 
